@@ -72,12 +72,21 @@ pub fn err(k: i64) -> RxError {
   RxError::from_error(Payload(k))
 }
 pub fn err_code(e: &RxError) -> i64 {
-  e.downcast_ref::<Payload>().map(|p| p.0).unwrap_or(-999)
+  if let Some(p) = e.downcast_ref::<Payload>() {
+    return p.0;
+  }
+  // timeout's error: io::ErrorKind::TimedOut
+  match e.downcast_ref::<std::io::Error>() {
+    Some(io) if io.kind() == std::io::ErrorKind::TimedOut => -110,
+    _ => -999,
+  }
 }
 
 #[derive(Clone, Default)]
 pub struct Rec {
   pub log: Arc<Mutex<Vec<Ev>>>,
+  /// a slow consumer: every item callback takes this long (virtual ms)
+  pub item_delay_ms: u64,
 }
 
 impl Rec {
@@ -96,9 +105,17 @@ impl Rec {
   /// callback body: mark entry, pass a scheduling point (so that a second
   /// callback running concurrently becomes observable), mark exit
   pub fn cb(&self, k: EvK) {
+    let slow = self.item_delay_ms > 0 && matches!(k, EvK::Next(_));
     let i = self.enter(k);
-    rxverif_rt::point();
+    if slow {
+      another_rxrust::vstd::thread::sleep(Duration::from_millis(self.item_delay_ms));
+    } else {
+      rxverif_rt::point();
+    }
     self.exit(i);
+  }
+  pub fn slow(ms: u64) -> Rec {
+    Rec { log: Default::default(), item_delay_ms: ms }
   }
   pub fn subscribe<T, F>(&self, o: &Observable<'static, T>, conv: F) -> Subscription<'static>
   where
